@@ -43,7 +43,7 @@ StartRun ==
         /\ pendSample' = [n \in 1..Len(p.nodes) |-> None]
         /\ epoch' = 0
         /\ live' = {}
-        /\ snap' = [t \in 0..3 |-> [n \in 1..Len(p.nodes) |-> None]]
+        /\ snap' = [t \in 0..15 |-> [n \in 1..Len(p.nodes) |-> None]]
         /\ lastRun' = [n \in 1..Len(p.nodes) |-> [has |-> FALSE, reads |-> <<>>]]
         /\ ran' = {}
         /\ running' = {}
@@ -59,7 +59,8 @@ StartRun ==
         /\ kfHard' = [n \in 1..Len(p.nodes) |-> ""]
         /\ histIn' = <<>>
         /\ crashed' = FALSE
-        /\ viol' = IF Acyclic(p) THEN viol ELSE Append(viol, V(l, "harness_cyclic_program", 0, 0, 0))
+        /\ viol' = IF Acyclic(p) \/ CycWellFormed(p) THEN viol
+                   ELSE Append(viol, V(l, "harness_cyclic_program", 0, 0, 0))
         /\ stats' = stats
     /\ Consume
 
@@ -90,10 +91,12 @@ TRestart == IsEvent("restart") /\ Restart(l) /\ Consume
 TCrash == IsEvent("crash") /\ Crash(l) /\ Consume
 TRecovered == IsEvent("recovered") /\ Recovered(l, Ev.inputs) /\ Consume
 TCrashPanic == IsEvent("crash_panic") /\ CrashPanic(l) /\ Consume
+THang == IsEvent("hang") /\ Hang(l) /\ Consume
+TQPanic == IsEvent("qpanic") /\ QueryPanicked(l, Ev.n) /\ Consume
 
 Known == {"prog", "reset", "begin", "set", "world", "refresh_start", "refresh",
           "commit", "tracked", "drop", "query", "enter", "read", "exec", "restart",
-          "crash", "recovered", "crash_panic"}
+          "crash", "recovered", "crash_panic", "hang", "qpanic"}
 
 TUnknown ==
     /\ l <= Len(Rec) /\ Ev.e \notin Known
@@ -112,7 +115,7 @@ Finish ==
 TraceNext ==
     \/ StartRun \/ EndRun \/ TBegin \/ TSet \/ TWorld \/ TRefreshStart \/ TRefresh
     \/ TCommit \/ TTracked \/ TDrop \/ TQuery \/ TEnter \/ TRead \/ TExec \/ TRestart
-    \/ TCrash \/ TRecovered \/ TCrashPanic
+    \/ TCrash \/ TRecovered \/ TCrashPanic \/ THang \/ TQPanic
     \/ TUnknown \/ Finish
 
 TraceSpec == TraceInit /\ [][TraceNext]_traceVars
